@@ -328,6 +328,10 @@ def generic_rules(ctx) -> None:
         dp = generic2.dead_parameters(ctx, f"{ctx.chk.prop}.dead-parameter", files)
         ma = generic2.manual_align(ctx, f"{ctx.chk.prop}.manual-align", files)
         sf = generic2.signed_formats(ctx, f"{ctx.chk.prop}.signed-format", files)
+        fb = generic2.instance_from_bytes(ctx, f"{ctx.chk.prop}.from-bytes-class", files)
+        ctx.chk.extra["from_bytes_sites_scanned"] = fb
+        if fb:
+            ctx.chk.ok(f"{ctx.chk.prop}.from-bytes-class", "anchor modules", f"{fb} from_bytes calls scanned; every receiver is a class (no value.from_bytes)")
         ctx.chk.extra["struct_formats_scanned"] = sf
         if sf:
             ctx.chk.ok(f"{ctx.chk.prop}.signed-format", "anchor modules", f"{sf} folded struct formats scanned; all items unsigned (1 frozen exception)")
